@@ -364,6 +364,8 @@ pub struct Side {
     /// per data channel: was Open observed, number of Close events, messages received
     pub dc_open: Arc<AtomicBool>,
     pub dc_closes: Arc<AtomicU64>,
+    /// the reader task's `recv()` loop on the data channel has ended (stream end)
+    pub dc_ended: Arc<AtomicBool>,
     pub dc_msgs: Arc<parking_lot::Mutex<Vec<Vec<u8>>>>,
     pub rtp_rx: Arc<parking_lot::Mutex<Vec<(String, Vec<u8>)>>>,
     pub aux: parking_lot::Mutex<Vec<tokio::task::JoinHandle<()>>>,
@@ -425,6 +427,7 @@ impl Side {
             legs,
             dc_open: Arc::new(AtomicBool::new(false)),
             dc_closes: Arc::new(AtomicU64::new(0)),
+            dc_ended: Arc::new(AtomicBool::new(false)),
             dc_msgs: Arc::new(parking_lot::Mutex::new(vec![])),
             rtp_rx: Arc::new(parking_lot::Mutex::new(vec![])),
             aux: parking_lot::Mutex::new(vec![]),
@@ -467,6 +470,7 @@ impl Side {
     /// Holds the channel, not the connection.
     pub fn attach_dc(&self, dc: Arc<DataChannel>) {
         *self.dc.lock() = Some(dc.clone());
+        let ended = self.dc_ended.clone();
         let (open, closes, msgs, l) = (
             self.dc_open.clone(),
             self.dc_closes.clone(),
@@ -491,6 +495,7 @@ impl Side {
                 }
             }
             log("app", &l, "dc_end", json!({"sid": dc.id}));
+            ended.store(true, Ordering::SeqCst);
         });
         self.aux.lock().push(h);
     }
